@@ -19,6 +19,24 @@ func (Labeler) AfterHalt(x *Exec, op *Op, res *Res) {
 func (Labeler) After(x *Exec, op *Op, res *Res) {
 	x.Label(res.Class() + ":" + op.K)
 	pre, post := x.Pre(), x.Post()
+	for _, dn := range post.AssetOrder {
+		amp := amplification(post, dn)
+		if x.AmpSeen == nil {
+			x.AmpSeen = map[string]*big.Rat{}
+		}
+		if cur := x.AmpSeen[dn]; cur == nil || amp.Cmp(cur) > 0 {
+			x.AmpSeen[dn] = amp
+		}
+		if degenerateAsset(post, dn) {
+			if x.OwnerlessSeen == nil {
+				x.OwnerlessSeen = map[string]bool{}
+			}
+			if !x.OwnerlessSeen[dn] {
+				x.OwnerlessSeen[dn] = true
+				x.Label("ownerless-value-state-entered")
+			}
+		}
+	}
 	switch op.K {
 	case KSlash, KSlashHook:
 		if x.L.LastSlashFrac == nil {
